@@ -436,6 +436,10 @@ func (c *jsonCtx) decode(j *jval, dst *Value, t types.Type, depth int) *Iface {
 			}
 		}
 	}
+	if n, ok := t.(*types.Named); ok && n.Obj().Pkg() != nil && n.Obj().Pkg().Path() == "encoding/json" && n.Obj().Name() == "RawMessage" {
+		*dst = &jsonBytes{tree: j} // the member's text, undecoded
+		return nil
+	}
 	switch u := t.Underlying().(type) {
 	case *types.Pointer:
 		if j.kind == jNull {
